@@ -396,20 +396,34 @@ fn run_v<V: VringT<GM<()>> + Clone + Send + Sync + 'static>(sim: &Sim, _cfg: &Ru
                 match be {
                     None => viol("backend_req_channel_not_delivered", String::new(), format!("step {step}: the backend did not receive the request channel")),
                     Some(be) => {
-                        let out = Arc::new(Mutex::new(None));
+                        // one shared-object request and one shared-memory request: each must be
+                        // sent iff its own feature was negotiated, with NEED_REPLY iff REPLY_ACK
+                        let out = Arc::new(Mutex::new((None, None)));
                         let o2 = out.clone();
                         let dev = sim.spawn("device", "device", move || {
                             let mut u = [0x5au8; 16];
                             u[0] = 1;
-                            let r = be.shared_object_add(&VhostUserSharedMsg { uuid: uuid::Uuid::from_bytes(u) });
-                            *o2.lock().unwrap() = Some(r.is_ok());
+                            let r1 = be.shared_object_add(&VhostUserSharedMsg { uuid: uuid::Uuid::from_bytes(u) });
+                            let r2 = be.shmem_unmap(&vhost::vhost_user::message::VhostUserMMap {
+                                shmid: 1,
+                                padding: [0; 7],
+                                fd_offset: 0,
+                                shm_offset: 0x1000,
+                                len: 0x2000,
+                                flags: 0,
+                            });
+                            *o2.lock().unwrap() = (Some(r1.is_ok()), Some(r2.is_ok()));
                             drop(be);
                         });
                         let so = protos & pf::SHARED_OBJECT != 0;
+                        let sh = protos & pf::SHMEM != 0;
                         let ra = protos & pf::REPLY_ACK != 0;
-                        if so {
-                            match fdu::raw_recv_exact(b.as_raw_fd(), spec::HDR + 16, "vmm.backend_req.recv") {
-                                Ok((bytes, _)) if bytes.len() == spec::HDR + 16 => {
+                        for (on, size, code, what) in [(so, 16usize, spec::br::SHARED_OBJECT_ADD, "SHARED_OBJECT"), (sh, 40, spec::br::SHMEM_UNMAP, "SHMEM")] {
+                            if !on {
+                                continue;
+                            }
+                            match fdu::raw_recv_exact(b.as_raw_fd(), spec::HDR + size, "vmm.backend_req.recv") {
+                                Ok((bytes, _)) if bytes.len() == spec::HDR + size && spec::parse_hdr(&bytes).code == code => {
                                     let h = spec::parse_hdr(&bytes);
                                     let nr = h.flags & spec::F_NEED_REPLY != 0;
                                     if nr != ra {
@@ -420,16 +434,23 @@ fn run_v<V: VringT<GM<()>> + Clone + Send + Sync + 'static>(sim: &Sim, _cfg: &Ru
                                         let _ = fdu::raw_send_segmented(b.as_raw_fd(), &ack, &[], &[], 0);
                                     }
                                 }
-                                other => viol("backend_req_not_sent", String::new(), format!("step {step}: SHARED_OBJECT negotiated but the proxy wrote {other:?}")),
+                                other => viol(
+                                    "backend_req_not_sent",
+                                    what.to_string(),
+                                    format!("step {step}: {what} negotiated but the proxy wrote {:?}", other.map(|(b, _)| b)),
+                                ),
                             }
                         }
                         sim.join(dev);
-                        let ok = out.lock().unwrap().unwrap_or(false);
-                        if ok != so {
-                            viol("backend_req_shared_object_not_inherited", String::new(), format!("step {step}: proxy request returned ok={ok} although SHARED_OBJECT negotiated={so}"));
+                        let (ok1, ok2) = *out.lock().unwrap();
+                        if ok1 != Some(so) {
+                            viol("backend_req_shared_object_not_inherited", String::new(), format!("step {step}: shared-object request returned ok={ok1:?} although SHARED_OBJECT negotiated={so}"));
                         }
-                        if !so && fdu::fionread(b.as_raw_fd()) != 0 {
-                            viol("backend_req_gated_request_sent", String::new(), format!("step {step}: bytes written although SHARED_OBJECT is not negotiated"));
+                        if ok2 != Some(sh) {
+                            viol("backend_req_shmem_not_inherited", String::new(), format!("step {step}: shared-memory request returned ok={ok2:?} although SHMEM negotiated={sh}"));
+                        }
+                        if fdu::fionread(b.as_raw_fd()) != 0 {
+                            viol("backend_req_gated_request_sent", String::new(), format!("step {step}: bytes of a request whose feature is not negotiated were written (SHARED_OBJECT={so} SHMEM={sh})"));
                         }
                     }
                 }
